@@ -343,6 +343,10 @@ impl Distribution<f64> for StudentsT {
         // generalised Student's T is related to normal Student's T by `Y = μ + σ X`
         // where `X` is distributed as Student's T, plugging into the definition
         // of entropy shows scaling affects the entropy by an additive constant `ln σ`
+        if self.freedom.is_infinite() {
+            // the limiting normal law (digamma(inf) - digamma(inf) below is NaN)
+            return Some(self.scale.ln() + crate::consts::LN_SQRT_2PIE);
+        }
         let shift = self.scale.ln();
         let result = (self.freedom + 1.0) / 2.0
             * (gamma::digamma((self.freedom + 1.0) / 2.0) - gamma::digamma(self.freedom / 2.0))
